@@ -79,3 +79,11 @@ claim("C09",
       "Encoder-produced CBE documents (9 templates, symbolic payload) and raw accepted documents of 3..4 fully symbolic bytes (5 thorough) are cut at every position; z3 shows the decoder+validator reject every proper prefix.",
       "Outside: 'partial result is a prefix of the full value' (builders/reflection) and CTE. Raw documents containing the padding code are excluded (a cut before trailing padding leaves a complete document).",
       "DESIGN.md §5 C09")
+claim("C04",
+      "One mechanism of C04: chunked-array reassembly in the real builder.BuilderEventReceiver/Context with a recording builder on top of the stack. Array type, number of chunks (1..3), element counts, data-event split points are enumerated by the engine and the content bytes are solver variables; z3 shows the builder is handed exactly one array, only after the final chunk is complete, with the concatenated bytes.",
+      "Every type-directed part of C04 (reflection-built builders, struct/map/pointer handling) is outside reach; a pass says nothing about them. The Builder interface carries no element count, so bit-array lengths are not observable here.",
+      "DESIGN.md §5 C04")
+claim("C05",
+      "Leaf iterators (bool slices, eight numeric slice kinds, Edge, Node) run on an emulated reflect.Value with symbolic elements; the emitted events go through the real rules validator and a recorder; z3 shows acceptance and that the typed array carries exactly the elements (bit i = element i, little-endian element bytes).",
+      "reflect.Value is the engine's emulation; GetIteratorForType is supplied by the harness. Struct/map/list/pointer iterators, records, omit rules and recursion support are outside reach.",
+      "DESIGN.md §5 C05")
